@@ -806,6 +806,12 @@ class PX:
         if v[0] == "upd":
             if v[2] == e:
                 return v[3]
+        if v[0] in ("bytes", "str") and k == "cidx":
+            i = e[1] if not e[2] else len(v[1]) - e[1]
+            if 0 <= i < len(v[1]):
+                return const(ord(v[1][i]))
+        if v[0] in ("bytes", "str") and k == "subslice":
+            return (v[0], v[1][e[1]:(len(v[1]) - e[2]) if e[3] else e[2]])
         return ("proj", v, e)
 
     def _set_in(self, v, path, val):
